@@ -310,9 +310,12 @@ func inductive(c *vf.Ctx) map[string]string {
 }
 
 func run(c *vf.Ctx) {
-	c.Rule("M: TLC exhaustive on SeqWindow (W=4, numbers 1..9, <=7 deliveries); thorough: Apalache proves the inductive invariant of SeqWindowInd at the real window size 64 for behaviours of any length (base case and 8 inductive steps in parallel). R: every edge of the dumped W=4 graph (numbers scaled x16 into the real 64-window, an exact homomorphism) and TLC -simulate walks at W=64 executed on SequenceHandler (both constructors), FrameV1.Unseal (4 encrypted message types) and LinkFrame.Unseal; T: seeded random delivery histories incl. signed frames validated by SeqWindow_Trace. distinct = distinct (binding, delivery history prefix hash) pairs whose last step is a duplicate, a behind-window or an in-window out-of-order delivery")
+	c.Rule("M: TLC exhaustive on SeqWindow (W=4, numbers 1..9, <=7 deliveries); thorough: Apalache proves the inductive invariant of SeqWindowInd at the real window size 64 for behaviours of any length (base case and 8 inductive steps in parallel). R: every edge of the dumped W=4 graph (numbers scaled x16 into the real 64-window, an exact homomorphism) and TLC -simulate walks at W=64 executed on SequenceHandler (both constructors), FrameV1.Unseal (4 encrypted message types) and LinkFrame.Unseal; T: seeded random delivery histories incl. signed frames validated by SeqWindow_Trace. T-refused: histories in which key set-ups on the receiver's session IN USE are refused between the deliveries (server side in place as router/ping_hello.go does it, client side, derivation: unsupported key-exchange type, share of the wrong size, low-order share, completion of an exchange that is not open, exchange opened and abandoned; through the state API on the end-to-end and on the link session, and as real hello requests / responses handled by the HelloPingHandler of a router stack), regular class, priority class and link frames interleaved; same trace specification with the event refusedsetup (accepted set unchanged). distinct = distinct (binding, delivery history prefix hash) pairs whose last step is a duplicate, a behind-window or an in-window out-of-order delivery")
 	c.Assume("ChaCha20-Poly1305/Ed25519 are unforgeable (frames that fail authentication are not part of this property)",
 		"sequence numbers stay below 2^31 here; the wrap is C15")
+
+	// ---- M-design: where the newest accepted stamp of the signed class could be kept (behind the open findings) ----
+	designStage(c)
 
 	// ---- M ----
 	mc, err := c.TLC("SeqWindow", "SeqWindow_MC.cfg", vf.TLCOpts{Workers: 8, Coverage: true, Timeout: 5 * time.Minute})
@@ -644,6 +647,10 @@ func run(c *vf.Ctx) {
 	// a signed frame replayed after the receiver's session cleaner removed the idle session (judged on its own: an
 	// open known finding on this tree)
 	traces += cleanReplay(c, rng)
+
+	// refused key set-ups (of every kind the API and the hello handler allow) on the receiver's session in use, between
+	// the deliveries of both encrypted classes and of link frames: what was accepted stays refused
+	traces += refusedSetups(c)
 
 	rejectAt, inv, tres, err := c.TraceCheck("SeqWindow_Trace", "SeqWindow_Trace.cfg", events, vf.TLCOpts{Timeout: 20 * time.Minute, Heap: "8g"})
 	if err != nil {
